@@ -713,6 +713,20 @@ func (u *Universe) SDL(svc int) string {
 			hasEntity = true
 		}
 	}
+	if !hasEntity {
+		// a root field typed Node (lookup(id: ID!): Node) in a service without entities: declare one, so that Node exists
+		for _, f := range u.Query {
+			if (svc < 0 || f.Owner == svc) && BaseName(f.Type) == "Node" && f.Name != "node" {
+				for _, t := range u.Types {
+					if t.Kind == KEntity {
+						n.needType(t.Name)
+						hasEntity = true
+						break
+					}
+				}
+			}
+		}
+	}
 	var b strings.Builder
 	for di, d := range u.DirDefs {
 		if svc < 0 || u.DirSvc[di][svc] {
